@@ -146,6 +146,10 @@ class Connection:
           check(r)
         return
       if isinstance(ref, gfapy.OrientedLine):
+        if ref.orient not in ["+", "-"]:
+          raise gfapy.FormatError(
+            "Line: {}\n".format(self)+
+            "the reference {} has no valid orientation".format(ref))
         ref = ref.line
       if isinstance(ref, str):
         found = gfa.line(ref)
